@@ -2,9 +2,11 @@ from vlib import H
 PROPERTY = 'C24'
 LEVEL = 'model_checking'
 CLAIM = ('wip')
-MODES = {'chunk': 0, 'post': 1, 'improve': 2, 'scratch': 3, 'fix': 4}
-def e(mode, n, real=0): return ('%s_n%d%s' % (mode, n, '_real' if real else ''), '%d, %d, %d' % (MODES[mode], n, real))
-quick = [e('chunk', 2), e('chunk', 3), e('post', 2), e('post', 3), e('improve', 2), e('scratch', 2)]
+MODES = {'chunk': 0, 'post': 1, 'improve': 2, 'scratch': 3, 'fix': 4, 'closure': 5}
+def mask(edges): return sum(1 << (4 * a + b) for a, b in edges)
+def e(mode, n, real=0, g=None, tag=''):
+    return ('%s_n%d%s%s' % (mode, n, '_' + tag if tag else '', '_real' if real else ''), '%d, %d, %d, %d' % (MODES[mode], n, real, -1 if g is None else mask(g)))
+quick = [e('chunk', 2, g=[]), e('chunk', 3, g=[]), e('closure', 2), e('closure', 3), e('scratch', 2, g=[], tag='g0'), e('scratch', 2, g=[(0, 1)], tag='g01'), e('post', 2, g=[(0, 1)], tag='g01')]
 HARNESSES = [
     H('lin', 'lin.cpp', 'h_lin', link=['util/feefrac.cpp'], entries=quick, defines={'ABORT_ON_FAILED_ASSUME': 1, 'VERIF_TALLOC_MAX': 8, 'VERIF_LL2C_INLINE_GEP': 1, 'VERIF_MUL128_NARROW': 12, 'FB': 4, 'SB': 2},
       unwind=5, unwindset='verif_cttz.0:10,verif_ctpop.0:10,verif_ctlz.0:10', memunwind=200, timeout=300, objbits=10, diff_runs=12,
